@@ -15,7 +15,7 @@ from typing import Dict, FrozenSet, List, Optional, Set, Tuple
 
 from ..flow import defuse, names_in
 from ..guards import src
-from ..index import ClassInfo, FuncInfo, Index, call_name, dotted, walk_no_nested
+from ..index import AnalysisError, ClassInfo, FuncInfo, Index, call_name, dotted, walk_no_nested
 from ..report import Results
 
 L, R = "lhs", "rhs"
@@ -471,3 +471,110 @@ def run_promotion_overrides(res: Results, idx: Index) -> None:
                 else:
                     res.ok("R-C01h", site, key, f"`{src(pro[0].value, 50)}` is not replaced by a single operand's dtype", fi.qualname)
     res.analysed["dtype_promotions"] = n
+
+
+# ---------------------------------------------------------------------------------------------- R-C01j
+# Functions whose parameters describe the ROLE of each operand axis (contracting / batch axes of both operands).
+# (file, function, role parameters, matrix operators whose operand layout is fixed by the ONNX specification)
+ROLE_PARAM_TABLE = [
+    ("jax2onnx/plugins/jax/lax/dot_general.py", "DotGeneralPlugin._try_lower_matmul", ("lhs_contract", "rhs_contract", "lhs_batch", "rhs_batch"), ("MatMul", "Gemm")),
+]
+
+
+def _outside_len(expr: ast.AST, name: str) -> bool:
+    """`name` occurs in expr other than as the sole argument of len()"""
+    inside = set()
+    for c in ast.walk(expr):
+        if isinstance(c, ast.Call) and (call_name(c) or "") == "len" and len(c.args) == 1 and isinstance(c.args[0], ast.Name) and c.args[0].id == name:
+            inside.add(id(c.args[0]))
+    return any(isinstance(x, ast.Name) and x.id == name and id(x) not in inside for x in ast.walk(expr))
+
+
+def run_axis_role_params(res: Results, idx: Index) -> None:
+    """MatMul / Gemm contract a fixed pair of axes.  A fast path that emits one of them for a dot_general has to make sure
+    BOTH operands' contracting (and batch) axes are where the operator expects them: each role parameter is either empty
+    on the path to the emission, or one of its ELEMENTS (not just its length) decides the path or flows into the
+    emission's operands / attributes (a Transpose permutation, transA / transB)."""
+    from ..guards import path_conditions
+    res.rule("R-C01j", "every axis-role parameter of a matrix fast path is consulted element-wise (or empty) on the way to the MatMul / Gemm it emits", floor=4)
+    for rel, fq, params, ops in ROLE_PARAM_TABLE:
+        f = idx.find_func(rel, fq)
+        if f is None:
+            raise AnalysisError(f"role-parameter anchor missing: {rel}::{fq}")
+        du = defuse(f.node)
+        emits = [c for c in walk_no_nested(f.node) if isinstance(c, ast.Call) and isinstance(c.func, ast.Attribute) and c.func.attr in ops]
+        if not emits:
+            res.unresolved("R-C01j", f.site, f"{rel}::{fq}::no-emission", f"no {'/'.join(ops)} emission found", f.qualname)
+            continue
+        from ..cfg import cfg_of
+        from ..index import enclosing_stmt
+        g = cfg_of(f.node)
+        for e in emits:
+            conds = path_conditions(e)
+            e_nodes = g.nodes_of(enclosing_stmt(e))
+            # names the emission depends on: operands / attributes and everything they are computed from, plus the
+            # conditions under which those definitions happen (control dependence)
+            used_exprs: List[ast.AST] = list(e.args) + [k.value for k in e.keywords]
+            n_operand_exprs = None
+            seen: Set[str] = set()
+            todo = [n for x in used_exprs for n in names_in(x)]
+            while todo:
+                nm = todo.pop()
+                if nm in seen:
+                    continue
+                seen.add(nm)
+                for d in du.defs.get(nm, []):
+                    # only definitions that can reach the emission (another fast path that returns does not count)
+                    if d.kind != "param" and d.stmt is not None and g.nodes_of(enclosing_stmt(d.stmt)) and e_nodes and not g.can_reach(g.nodes_of(enclosing_stmt(d.stmt)), e_nodes):
+                        continue
+                    if d.value is not None:
+                        used_exprs.append(d.value)
+                        todo.extend(names_in(d.value))
+                    if d.stmt is not None and d.kind != "param":
+                        # control dependence: the tests of the if statements the definition sits in (not the early
+                        # returns before it: those hold for every later statement alike)
+                        from ..index import parents as _parents
+                        for anc in _parents(d.stmt):
+                            if anc is f.node:
+                                break
+                            if isinstance(anc, (ast.If, ast.While, ast.IfExp)):
+                                used_exprs.append(anc.test)
+                                todo.extend(names_in(anc.test))
+            flow_names = set(seen)            # what the operands / attributes are computed from (incl. control dependence)
+            flow_exprs = list(used_exprs)
+            used_exprs = used_exprs + [c for c, _w in conds]
+            for p in params:
+                # an element of p that the path admits with two or more values has to reach the operands / attributes
+                elems = {d.name for ds in du.defs.values() for d in ds if d.value is not None and isinstance(d.value, ast.Subscript) and isinstance(d.value.value, ast.Name) and d.value.value.id == p
+                         and (d.stmt is None or not e_nodes or g.can_reach(g.nodes_of(enclosing_stmt(d.stmt)), e_nodes))}
+                multi = None
+                for c, want in conds:
+                    if isinstance(c, ast.Compare) and len(c.ops) == 1 and isinstance(c.left, ast.Name) and c.left.id in elems and isinstance(c.comparators[0], (ast.Tuple, ast.List, ast.Set)) and len(c.comparators[0].elts) >= 2:
+                        if (isinstance(c.ops[0], ast.In) and want) or (isinstance(c.ops[0], ast.NotIn) and not want):
+                            multi = (c.left.id, c)
+                if multi is not None and multi[0] not in flow_names and not any(_outside_len(x, p) for x in flow_exprs):
+                    res.violation("R-C01j", f"{rel}:{e.lineno}", f"{rel}::{fq}::{e.func.attr}@{_nth(emits, e)}::{p}::admitted-values", f"the path to this {e.func.attr} admits `{src(multi[1], 50)}` "
+                                  f"(want {'true' if isinstance(multi[1].ops[0], ast.In) else 'false'}), i.e. several positions of the `{p}` axis, but neither an operand nor an attribute of the node depends on `{multi[0]}`: "
+                                  "all of them are lowered like one", f.qualname)
+            for p in params:
+                key = f"{rel}::{fq}::{e.func.attr}@{_nth(emits, e)}::{p}"
+                site = f"{rel}:{e.lineno}"
+                empty = False
+                for c, want in conds:
+                    if isinstance(c, ast.Name) and c.id == p and not want:
+                        empty = True
+                    if isinstance(c, ast.Compare) and len(c.ops) == 1 and isinstance(c.left, ast.Call) and (call_name(c.left) or "") == "len" and c.left.args and isinstance(c.left.args[0], ast.Name) \
+                            and c.left.args[0].id == p and isinstance(c.comparators[0], ast.Constant) and c.comparators[0].value == 0:
+                        if (isinstance(c.ops[0], ast.NotEq) and not want) or (isinstance(c.ops[0], ast.Eq) and want) or (isinstance(c.ops[0], ast.Gt) and not want):
+                            empty = True
+                elementwise = any(_outside_len(x, p) for x in used_exprs)
+                if empty:
+                    res.ok("R-C01j", site, key, f"`{p}` is empty on every path to this {e.func.attr}", f.qualname)
+                elif elementwise:
+                    res.ok("R-C01j", site, key, f"an element of `{p}` decides the path to, or an operand / attribute of, this {e.func.attr}", f.qualname)
+                else:
+                    res.violation("R-C01j", site, key, f"{e.func.attr} is emitted without looking at the elements of `{p}` (only its length, if anything): whichever axis it names, the operator contracts / batches its fixed axes, so e.g. a contraction over the operand's FIRST axis is computed as one over its last", f.qualname)
+
+
+def _nth(seq: List[ast.AST], x: ast.AST) -> int:
+    return next(i for i, y in enumerate(seq) if y is x)
